@@ -3,6 +3,8 @@
 
 package verifrt
 
+import "crypto/sha256"
+
 // E2 — explicit-state breadth-first search over the reachable states of a
 // real data structure. The harness supplies snapshots (opaque values it can
 // restore into the real object), a canonical key, and a successor function
@@ -31,6 +33,17 @@ type Graph struct {
 
 	seen  map[string]int32
 	nodes []node
+}
+
+// compact bounds the memory of the visited set: long canonical keys are stored as a 128-bit digest (a collision would
+// merge two states silently; with 2^-128 per pair that is not a practical concern, and it can only lose states, never
+// raise an alarm).
+func compact(k string) string {
+	if len(k) <= 32 {
+		return k
+	}
+	d := sha256.Sum256([]byte(k))
+	return string(d[:16])
 }
 
 // Path returns the operation list leading to state id (needs KeepPath).
@@ -62,7 +75,7 @@ func (g *Graph) Run(inits []interface{}) {
 	}
 	var frontier []item
 	for _, s := range inits {
-		k := g.Key(s)
+		k := compact(g.Key(s))
 		if _, ok := g.seen[k]; ok {
 			continue
 		}
@@ -90,7 +103,7 @@ func (g *Graph) Run(inits []interface{}) {
 			cur := it
 			g.Succ(g, cur.id, cur.s, func(op string, ns interface{}) {
 				g.Transitions++
-				k := g.Key(ns)
+				k := compact(g.Key(ns))
 				if _, ok := g.seen[k]; ok {
 					return
 				}
